@@ -162,6 +162,19 @@ def unit_rate(model, sizes, vec, limit, use_t):
     return recs
 
 
+def unit_helpers():
+    """contracts of the shared helpers rate() is composed with, as premises of the rate-level
+    obligations: _unary_minus returns exactly -x with the operand's own numeric kind (the rate-level
+    proof treats int -> float conversion as exact, which is only true if no conversion happens)"""
+    from . import c03
+    out = []
+    for r in c03.unit_neg():
+        r = dict(r)
+        r["name"] = r["name"].replace("C03/", "C01/helper/")
+        out.append(r)
+    return out
+
+
 def anysize_note():
     from .anysize import A_SUM
     return A_SUM
@@ -173,8 +186,24 @@ def unit_anysize(model, n, gamma_mode):
     return anysize.c01(model, n, gamma_mode)
 
 
+def unit_gauss_contracts():
+    """premises of this property's proofs: the contract clauses of v, w, vt, wt that the obligations above
+    assume are verified on the real bodies (the C17 units, re-run here under this property's name, so
+    that a change inside a callee that breaks a clause this property relies on is reported here too)"""
+    from . import c17
+    out = []
+    for u in ('unit_v', 'unit_w', 'unit_vt', 'unit_wt'):
+        for r in getattr(c17, u)():
+            if r["kind"] == "canary" or not any(k in r["name"] for k in ('equals', 'returns')):
+                continue          # only the clauses this property's proofs rely on
+            r = dict(r)
+            r["name"] = r["name"].replace("C17/", "C01/helper/")
+            out.append(r)
+    return out
+
+
 def units(tier):
-    us = []
+    us = [("unit_helpers", ())]
     nmax = 4 if tier == "quick" else 8
     for m in extract.MODELS:
         for n in range(2, (4 if tier == "quick" else 7) + 1):
@@ -193,7 +222,8 @@ def units(tier):
                         continue
                     us.append(("unit_rate", (m, sizes, vec, limit, vec == "ranks" and not limit)))
     # biggest first for better packing
-    us.sort(key=lambda u: -((sum(u[1][1]) * 2 ** len(u[1][1])) if u[0] != "unit_anysize" else 2 ** u[1][1]))
+    us.sort(key=lambda u: 0 if u[0] == "unit_helpers" else -((sum(u[1][1]) * 2 ** len(u[1][1])) if u[0] != "unit_anysize" else 2 ** u[1][1]))
+    us.insert(0, ("unit_gauss_contracts", ()))
     return us
 
 
@@ -219,5 +249,5 @@ def main(tier, seed):
         explanation=("For every listed shape the real _compute of each model is executed on symbolic ratings and its per-player (mu, sigma) result terms are proved *identical as exact normal forms* (Laurent polynomials over canonical sqrt/exp/V/W atoms with named denominators) to the published Weng-Lin update written from the paper; "
                      "the real rate() (tau inflation, stable sort by rank, _compute, unsort, limit_sigma clamp) is proved equal to the spec composition for symbolic rank or score vectors on every path of the sort (every weak order). Values unbounded, shapes bounded. "
                      "Known finding K1: ThurstoneMostellerPart uses pair scale 2*sqrt(..) (proved equal to the published update with k = 2; the k = 1 obligation fails)."),
-        shapes=sorted({str(u[1][1]) if u[0] != "unit_anysize" else f"n={u[1][1]}, every team size (gamma {u[1][2]})" for u in units(tier)}),
+        shapes=sorted({str(u[1][1]) if u[0] != "unit_anysize" else f"n={u[1][1]}, every team size (gamma {u[1][2]})" for u in units(tier) if len(u[1]) > 1}),
     )
